@@ -47,7 +47,7 @@ pub fn is_valid_request(r: &Request) -> bool {
         }
     }
     // and the printed form must lex back to the same tokens
-    match lex(&item.to_string()) {
+    match lex(&crate::req::print(&item)) {
         Some(t) => canon(&t) == canon(&item),
         None => false,
     }
@@ -967,6 +967,114 @@ fn op_field_type(c: &mut Cand, rng: &mut Rng, _: &Pool) -> bool {
     }
     true
 }
+fn op_type_from_macro(c: &mut Cand, rng: &mut Rng, _: &Pool) -> bool {
+    // what `macro_rules! m { ($t:ty) => { .. struct X($t); } }` hands to the macro: the type
+    // inside a None-delimited group
+    fn group(ty: &Type) -> Type {
+        Type::Group(syn::TypeGroup {
+            group_token: Default::default(),
+            elem: Box::new(ty.clone()),
+        })
+    }
+    match &mut c.item {
+        Item::Impl(i) => {
+            match rng.below(3) {
+                0 => {
+                    let g = group(&i.self_ty);
+                    *i.self_ty = g;
+                    true
+                }
+                1 => {
+                    for it in i.items.iter_mut() {
+                        if let syn::ImplItem::Type(t) = it {
+                            t.ty = group(&t.ty);
+                            return true;
+                        }
+                    }
+                    false
+                }
+                _ => {
+                    let Some((_, path, _)) = &mut i.trait_ else {
+                        return false;
+                    };
+                    let Some(seg) = path.segments.last_mut() else {
+                        return false;
+                    };
+                    if let syn::PathArguments::AngleBracketed(a) = &mut seg.arguments {
+                        for arg in a.args.iter_mut() {
+                            if let syn::GenericArgument::Type(t) = arg {
+                                *t = group(t);
+                                return true;
+                            }
+                        }
+                    }
+                    false
+                }
+            }
+        }
+        _ => {
+            let mut lists = fields_lists(&mut c.item);
+            let cand: Vec<usize> = (0..lists.len()).filter(|i| lists[*i].len() > 0).collect();
+            if cand.is_empty() {
+                return false;
+            }
+            let li = *rng.pick(&cand);
+            let n = lists[li].len();
+            let fi = rng.below(n);
+            let f = lists[li].iter_mut().nth(fi).unwrap();
+            if matches!(f.ty, Type::Group(_)) {
+                return false;
+            }
+            f.ty = group(&f.ty);
+            true
+        }
+    }
+}
+fn op_expr_from_macro(c: &mut Cand, rng: &mut Rng, _: &Pool) -> bool {
+    // what `macro_rules! m { ($e:expr) => { .. #[default($e)] .. } }` hands over: the expression
+    // inside a None-delimited group. Wraps the value of one `name = value` argument, or the
+    // first positional argument, of a helper attribute.
+    let mut slots = attr_slots(&mut c.item);
+    let mut cands: Vec<(usize, usize)> = Vec::new();
+    for (si, s) in slots.iter().enumerate() {
+        for (ai, a) in s.iter().enumerate() {
+            let helper = ["default", "ord", "partial_ord", "eq", "partial_eq", "hash"].iter().any(|n| a.path().is_ident(n));
+            if helper && matches!(a.meta, syn::Meta::List(_)) {
+                cands.push((si, ai));
+            }
+        }
+    }
+    if cands.is_empty() {
+        return false;
+    }
+    let (si, ai) = *rng.pick(&cands);
+    let syn::Meta::List(l) = &mut slots[si][ai].meta else {
+        return false;
+    };
+    let v = tts(&l.tokens);
+    if v.is_empty() {
+        return false;
+    }
+    // start after an `=` if there is one, else at the beginning; end at the next top-level comma
+    let eqs: Vec<usize> = v.iter().enumerate().filter(|(_, t)| matches!(t, TokenTree::Punct(p) if p.as_char() == '=' && p.spacing() == Spacing::Alone)).map(|(i, _)| i).collect();
+    let start = if eqs.is_empty() { 0 } else { *rng.pick(&eqs) + 1 };
+    let mut end = start;
+    while end < v.len() && !matches!(&v[end], TokenTree::Punct(p) if p.as_char() == ',') {
+        end += 1;
+    }
+    if end <= start {
+        return false;
+    }
+    if end - start == 1 && matches!(&v[start], TokenTree::Group(g) if g.delimiter() == Delimiter::None) {
+        return false;
+    }
+    let inner: TokenStream = v[start..end].iter().cloned().collect();
+    let mut out: Vec<TokenTree> = v[..start].to_vec();
+    out.push(TokenTree::Group(Group::new(Delimiter::None, inner)));
+    out.extend(v[end..].iter().cloned());
+    l.tokens = out.into_iter().collect();
+    true
+}
 fn op_fields_kind(c: &mut Cand, rng: &mut Rng, _: &Pool) -> bool {
     let is_struct = matches!(c.item, Item::Struct(_));
     let mut lists = fields_lists(&mut c.item);
@@ -1740,6 +1848,8 @@ const OPS: &[(&str, Op, usize)] = &[
     ("field-add", op_field_add, 5),
     ("field-type", op_field_type, 7),
     ("fields-kind", op_fields_kind, 4),
+    ("type-from-macro", op_type_from_macro, 3),
+    ("expr-from-macro", op_expr_from_macro, 2),
     ("variant-delete", op_variant_delete, 3),
     ("variant-duplicate", op_variant_duplicate, 3),
     ("variant-swap", op_variant_swap, 2),
